@@ -133,6 +133,15 @@ func (fx *FX) evalExpr(env *Env, e Expr) Val {
 			if env.rangeCount.S != "" {
 				return VInt{env.rangeCount}
 			}
+		case "panicking": // recover() returned a non-nil value in this function (it runs as a deferred call during a panic)
+			var alts []T
+			for _, t := range fx.recoverTags {
+				alts = append(alts, not(eq(t, num(0))))
+			}
+			if len(alts) == 0 {
+				return VBool{tFalse}
+			}
+			return VBool{or(alts...)}
 		case "nowunix": // Unix seconds of the most recent time.Now() on this path (ghost)
 			if env.st != nil && env.st.Now.S != "" {
 				return VInt{env.st.Now}
